@@ -773,3 +773,38 @@ fn sum_of_products_2_canonical() {
     let r = IFq::sum_of_products(&a, &b);
     assert!(wlt4(&limbs(&r.0), &FQ));
 }
+
+// ------------------------------------------------------------------------------------------------
+// C11 / C12 / C02(v): serialisation order of the tower (highest coefficient first at every level)
+
+#[kani::proof]
+#[kani::unwind(40)]
+#[kani::stub(crate::u256::U256::mul, stub_u256_mul)]
+#[kani::stub(crate::u256::U256::to_big_endian, stub_u256_to_big_endian)]
+fn fq12_to_slice_layout() {
+    let c: [[u64; 4]; 12] = [any_below(&FQ), any_below(&FQ), any_below(&FQ), any_below(&FQ), any_below(&FQ), any_below(&FQ),
+                             any_below(&FQ), any_below(&FQ), any_below(&FQ), any_below(&FQ), any_below(&FQ), any_below(&FQ)];
+    let f = |k: usize| IFq(U256::from(c[k]));
+    // c[k] is the coefficient with index k in the order c0.c0.c0, c0.c0.c1, c0.c1.c0, c0.c1.c1, c1.c0.c0, ...
+    let f4 = |b: usize| crate::fields::Fq4::new(IFq2::new(f(b), f(b + 1)), IFq2::new(f(b + 2), f(b + 3)));
+    let x = crate::fields::Fq12::new(f4(0), f4(4), f4(8));
+    let e = x.to_slice();
+    let i: usize = kani::any();
+    kani::assume(i < 384);
+    // byte block j (32 bytes) holds coefficient 11 - j
+    let j = i / 32;
+    assert!(e[i] == byte_of(&c[11 - j], i % 32));
+}
+
+#[kani::proof]
+#[kani::unwind(40)]
+#[kani::stub(crate::u256::U256::mul, stub_u256_mul)]
+#[kani::stub(crate::u256::U256::to_big_endian, stub_u256_to_big_endian)]
+fn fq2_to_slice_layout() {
+    let (a, b) = (any_below(&FQ), any_below(&FQ));
+    let x = IFq2::new(IFq(U256::from(a)), IFq(U256::from(b)));
+    let e = x.to_slice();
+    let i: usize = kani::any();
+    kani::assume(i < 64);
+    assert!(e[i] == if i < 32 { byte_of(&b, i) } else { byte_of(&a, i - 32) });
+}
